@@ -19,6 +19,7 @@ BAD = [
     "RECURRENCE-ID;TZID=America/New_York:99991231T235959", "ATTACH;VALUE=BINARY;ENCODING=BASE64:@@@", "TRIGGER:20200101", "TRIGGER;VALUE=DATE-TIME:x",
     "COMPLETED:20200101T000000+0100", ":novalue", "NAME WITH SPACE:v", "X;P:novalue", "X;=v:1", "X;P=\"unterminated:1", "X;P=a\"b:1", "ACKNOWLEDGED:soon",
     "REPEAT:many", "X-MOZ-LASTACK:never", "DTSTAMP:20200101", "CATEGORIES;VALUE=", "BEGIN", "END", "BEGIN:", "END:VEVENT:", "﻿SUMMARY:x", "SUMMARY\tx",
+    "DESCRIPTION:cut off here" + chr(92), "DTEND:20240102T11" + chr(92), "ATTENDEE;CN=\"Trunc" + chr(92), "X" + chr(92), chr(92), "X:" + chr(92) + chr(92) + chr(92),
 ]
 GOOD = ["UID:u1", "SUMMARY:keep\\, me", "DTSTART;TZID=Europe/Vienna:20200101T100000"]
 ALARM = ["BEGIN:VALARM", "ACTION:DISPLAY", "TRIGGER:-PT5M", "END:VALARM"]
